@@ -6,10 +6,10 @@ def plan(ctx):
     seed, tier = ctx["seed"], ctx["tier"]
     items = []
     if tier == "quick":
-        pools = [("panic", 600), ("general", 150), ("mutation", 100)]
+        pools = [("panic", 600), ("general", 150), ("mutation", 100), ("assignorder", 200)]
         cap = 20.0
     else:
-        pools = [("panic", 5000), ("general", 1000), ("mutation", 1000), ("widepanic", 3000)]
+        pools = [("panic", 5000), ("general", 1000), ("mutation", 1000), ("widepanic", 3000), ("assignorder", 1000)]
         cap = 120.0
     for profile, n in pools:
         for i in range(n):
